@@ -1,4 +1,5 @@
 import McpModel.Notify.Props
+import McpModel.Notify.Pages
 /-!
 # C18, client caches with several pages (mcp/cache.go: one entry per cursor)
 
@@ -93,3 +94,60 @@ example :
     (run true {} ls).1.entries = [] ∧ (listStart (run true {} ls).1 2).2 = [] := by decide
 
 end Notify.Cache
+
+/-! ## the harness ops of the paginated cases (`Pages.lean`) and their monitor -/
+namespace Notify.Pages
+open Notify.Cache
+
+/-- the model's answers to a list of ops -/
+def runModel (m : MState) : List Op → List (Op × Obs)
+  | [] => []
+  | op :: ops => let r := step m op; (op, r.2) :: runModel r.1 ops
+
+/-- the first clause the monitor raises on a trace -/
+def runMon (m : Mon) : List (Op × Obs) → Option Clause
+  | [] => none
+  | (op, obs) :: rest => match monStep m op obs with
+    | (_, some c) => some c
+    | (m', none) => runMon m' rest
+
+/-- **pages_stalePage_sound.**  What the report means on the history the monitor has recorded (`told` = the changes whose
+notification the client has handled; `starts` = for every held call that number when it started): a call that
+started after `t` changes had been handled returned a version older than `t`. -/
+theorem pages_stalePage_sound (m : Mon) (op : Op) (obs : Obs) (h : (monStep m op obs).2 = some .stalePage) :
+    (∃ k v hit, (op = .list k ∨ op = .listheld k) ∧ obs = .ret v hit ∧ v < m.told) ∨
+    (∃ k v hit, op = .fill k ∧ obs = .ret v hit ∧ v < (m.starts.lookup k).getD 0) := by
+  cases op <;> cases obs <;> simp [monStep] at h ⊢ <;> first | exact h | omega | skip
+
+/-- **pages_notNotified_sound.**  The report means: the op was a change of every tool and the client handled no
+list-changed notification within the 20 ms that follow. -/
+theorem pages_notNotified_sound (m : Mon) (op : Op) (obs : Obs) (h : (monStep m op obs).2 = some .notNotified) :
+    op = .change ∧ ∀ n, obs = .handled n → n = 0 := by
+  cases op <;> cases obs <;> simp [monStep] at h ⊢ <;> first | exact h | omega | skip
+
+/-- on the model's own answers the monitor is silent (three pages, a held call across a change, TTL expiry) … -/
+example : runMon {} (runModel { ttl := 60000 }
+    [.list 0, .list 1, .listheld 2, .change, .fill 2, .list 2, .list 2, .tick 70000, .list 2, .change, .list 1]) = none := by decide
+
+/-- … and a later page served from before the change is reported -/
+example : runMon {} [(.list 2, .ret 0 false), (.change, .handled 1), (.list 0, .ret 1 false), (.list 2, .ret 0 true)] = some .stalePage := by
+  decide
+
+theorem eraseIdx_concat {α} (l : List α) (a : α) : (l ++ [a]).eraseIdx l.length = l := by
+  induction l with
+  | nil => rfl
+  | cons b l ih => simp [List.eraseIdx, ih]
+
+/-- **miss_roundtrip.**  An unheld miss of the harness op `pages list k` — `listStart` appended the call, `serve` and
+`fill` of that call follow at once — returns the server's CURRENT version of that page and leaves the other calls
+in flight as they were. -/
+theorem miss_roundtrip (c : Cache.State) (f0 : Fill) (ttl : Nat) (hs : f0.stage = .sent) :
+    let c1 := { c with fills := c.fills ++ [f0] }
+    let i := c1.fills.length - 1
+    let c2 := (Cache.step true c1 (.serve i ttl)).1
+    (Cache.step true c2 (.fill i)).2 = [.ret f0.key (c.srv f0.key) f0.startMax false] ∧
+    (Cache.step true c2 (.fill i)).1.fills = c.fills := by
+  simp only [Cache.step, serve, fill, List.length_append, List.length_singleton, Nat.add_sub_cancel]
+  simp [hs, eraseIdx_concat]
+
+end Notify.Pages
